@@ -155,6 +155,8 @@ def _slice_extent(t):
     """(lo, hi) linear forms of an index node (fn, base, range) relative to its base, plus len(base)"""
     if isinstance(t, tuple) and len(t) == 2 and t[1] == ".*":
         t = t[0]
+    if t == "top:data":
+        return {}, {"L": 1}, {"L": 1}          # the whole chunk
     if not (isinstance(t, tuple) and len(t) == 3 and isinstance(t[0], str) and t[0].endswith(("index", "index_mut"))):
         return None
     bl = _len_of_base(t[1])
